@@ -312,6 +312,10 @@ def build_enum(case):
         return m
     if fmt == "treeinfo":
         t = samples.treeinfo(1)
+        if k == "no_variants":
+            t = samples.treeinfo(0)
+            t.variants.variants.clear()
+            return t
         if k == "variant_type":
             t["Server"]["HA"].type = v
         elif k == "arch":
@@ -350,6 +354,7 @@ def enum_cases():
     for fmt in samples.FORMATS:
         for shape in range(samples.NSHAPES[fmt]):
             out.append({"sample": "%s_%d" % (fmt, shape)})
+    out.append({"sample": "treeinfo_0", "variant": ["no_variants", True]})
     return out
 
 
